@@ -191,6 +191,73 @@ MUTANTS = [
     M("from-string-helper-loses-context", U, FS_PRELUDE_END, FS_HELPER_NO_CTX, "C16.9"),
     M("benign-from-string-body-in-helper", U, FS_PRELUDE_END, FS_SPLIT, None),
     M("benign-from-string-memo-by-context", U, FS_DEF, FS_MEMO_DECL, None, edits=[(U, FS_PRELUDE_END, FS_MEMO_BY_CONTEXT)]),
+    # ---- C16.10 a refused cap is reported as refused
+    M("refusal-readonly-error-dropped", U,
+      "        if not can_be_mutable:\n            error = MustBeDeepImmutableError(kind + \" used in an immutable context\", name)\n"
+      "        else:\n            error = MustBeReadonlyError(kind + \" used in a read-only context\", name)\n",
+      "        if not can_be_mutable:\n            error = MustBeDeepImmutableError(kind + \" used in an immutable context\", name)\n", "C16.10"),
+    M("refusal-immutable-error-dropped", U,
+      "        if not can_be_mutable:\n            error = MustBeDeepImmutableError(kind + \" used in an immutable context\", name)\n"
+      "        else:\n            error = MustBeReadonlyError(kind + \" used in a read-only context\", name)\n",
+      "        if can_be_mutable:\n            error = MustBeReadonlyError(kind + \" used in a read-only context\", name)\n", "C16.10"),
+    M("refused-ssk-writecap-plain-unknown", U, "            kind = \"URI:SSK file writecap\"\n", "            return UnknownURI(u)\n", "C16.10"),
+    M("ssk-guard-folded-into-dispatch", U,
+      "        elif s.startswith(b'URI:SSK:'):\n            if can_be_writeable:\n                return WriteableSSKFileURI.init_from_string(s)\n            kind = \"URI:SSK file writecap\"\n",
+      "        elif s.startswith(b'URI:SSK:') and can_be_writeable:\n            return WriteableSSKFileURI.init_from_string(s)\n", "C16.10"),
+    M("refusal-returns-none", U, "    return UnknownURI(u, error=error)\n", "    return None\n", "C16.10"),
+    M("helper-refusal-error-dropped", U, FS_PRELUDE_END, FS_SPLIT, "C16.10", edits=[(U,
+      "        else:\n            error = MustBeReadonlyError(kind + \" used in a read-only context\", name)\n", "")]),
+    M("benign-refusal-error-ifexp", U,
+      "        if not can_be_mutable:\n            error = MustBeDeepImmutableError(kind + \" used in an immutable context\", name)\n"
+      "        else:\n            error = MustBeReadonlyError(kind + \" used in a read-only context\", name)\n",
+      "        error = (MustBeReadonlyError(kind + \" used in a read-only context\", name) if can_be_mutable\n"
+      "                 else MustBeDeepImmutableError(kind + \" used in an immutable context\", name))\n", None),
+    M("benign-error-init-dropped", U, "    error = None\n    try:\n        if s.startswith(b'URI:CHK:'):", "    try:\n        if s.startswith(b'URI:CHK:'):", None),
+    M("benign-refusal-returned-directly", U,
+      "            error = MustBeReadonlyError(kind + \" used in a read-only context\", name)\n",
+      "            return UnknownURI(u, MustBeReadonlyError(kind + \" used in a read-only context\", name))\n", None),
+    M("benign-guard-flag-tested-first", U,
+      "        elif s.startswith(b'x-tahoe-future-test-writeable:') and not can_be_writeable:",
+      "        elif not can_be_writeable and s.startswith(b'x-tahoe-future-test-writeable:'):", None),
+    # ---- C16.13 the kind tests examine the cap without the alleged prefix
+    M("imm-prefix-not-stripped", U, "        can_be_mutable = can_be_writeable = False\n        s = s[len(ALLEGED_IMMUTABLE_PREFIX):]\n",
+      "        can_be_mutable = can_be_writeable = False\n", "C16.13"),
+    M("ro-prefix-stripped-as-imm", U, "        s = s[len(ALLEGED_READONLY_PREFIX):]\n", "        s = s[len(ALLEGED_IMMUTABLE_PREFIX):]\n", "C16.13"),
+    M("prefix-stripped-into-unused-name", U, "        s = s[len(ALLEGED_READONLY_PREFIX):]\n", "        rest = s[len(ALLEGED_READONLY_PREFIX):]\n", "C16.13"),
+    M("benign-imm-prefix-strip-literal", U, "        s = s[len(ALLEGED_IMMUTABLE_PREFIX):]\n", "        s = s[4:]\n", None),
+    M("benign-prefix-strip-via-temp", U, "        s = s[len(ALLEGED_READONLY_PREFIX):]\n",
+      "        rest = s[len(ALLEGED_READONLY_PREFIX):]\n        s = rest\n", None),
+    # ---- C16.11 UnknownNode keeps a cap only after from_string found no refusal
+    M("unknown-parse-error-not-recorded", K, "                self.error = read_cap.get_error()\n                if self.error:",
+      "                if self.error:", "C16.11"),
+    M("unknown-parse-error-test-inverted", K, "                if self.error:\n                    assert self.rw_uri is None and self.ro_uri is None",
+      "                if not self.error:\n                    assert self.rw_uri is None and self.ro_uri is None", "C16.11"),
+    M("unknown-parse-known-instead-of-unknown", K, "            if isinstance(read_cap, uri.UnknownURI):",
+      "            if not isinstance(read_cap, uri.UnknownURI):", "C16.11"),
+    M("unknown-parse-only-in-immutable-ctx", K, "        if given_ro_uri:\n            read_cap = uri.from_string(",
+      "        if given_ro_uri and deep_immutable:\n            read_cap = uri.from_string(", "C16.11"),
+    M("unknown-parse-error-does-not-return", K,
+      "                    assert self.rw_uri is None and self.ro_uri is None\n                    return\n",
+      "                    assert self.rw_uri is None and self.ro_uri is None\n", "C16.11"),
+    M("benign-unknown-parse-error-ifexp", K,
+      "            if isinstance(read_cap, uri.UnknownURI):\n                self.error = read_cap.get_error()\n                if self.error:\n"
+      "                    assert self.rw_uri is None and self.ro_uri is None\n                    return\n",
+      "            self.error = read_cap.get_error() if isinstance(read_cap, uri.UnknownURI) else None\n            if self.error:\n"
+      "                assert self.rw_uri is None and self.ro_uri is None\n                return\n", None),
+    M("benign-unknown-parse-error-via-local", K,
+      "                self.error = read_cap.get_error()\n                if self.error:",
+      "                err = read_cap.get_error()\n                self.error = err\n                if err:", None),
+    # ---- C16.12 the cap of the write slot reaches ro_uri only when found prefixed
+    M("unknown-unprefixed-rw-moved-only-checked-in-imm-ctx", K,
+      "                if not (given_rw_uri.startswith(ALLEGED_READONLY_PREFIX)\n                        or given_rw_uri.startswith(ALLEGED_IMMUTABLE_PREFIX)):",
+      "                if deep_immutable and not (given_rw_uri.startswith(ALLEGED_READONLY_PREFIX)\n                        or given_rw_uri.startswith(ALLEGED_IMMUTABLE_PREFIX)):", "C16.12"),
+    M("unknown-rw-prefix-test-inverted", K,
+      "                if not (given_rw_uri.startswith(ALLEGED_READONLY_PREFIX)\n                        or given_rw_uri.startswith(ALLEGED_IMMUTABLE_PREFIX)):",
+      "                if (given_rw_uri.startswith(ALLEGED_READONLY_PREFIX)\n                        or given_rw_uri.startswith(ALLEGED_IMMUTABLE_PREFIX)):", "C16.12"),
+    M("unknown-ro-falls-back-to-rw", K, "        given_ro_uri = given_ro_uri or None\n", "        given_ro_uri = given_ro_uri or given_rw_uri or None\n", ["C16.12", "C16.8"]),
+    M("benign-unknown-rw-prefix-test-de-morgan", K,
+      "                if not (given_rw_uri.startswith(ALLEGED_READONLY_PREFIX)\n                        or given_rw_uri.startswith(ALLEGED_IMMUTABLE_PREFIX)):",
+      "                if (not given_rw_uri.startswith(ALLEGED_READONLY_PREFIX)\n                        and not given_rw_uri.startswith(ALLEGED_IMMUTABLE_PREFIX)):", None),
     # ---- vanished anchor
     M("vanish-wrap-dirnode-cap", U, "def wrap_dirnode_cap(filecap):", "def wrap_dirnode_capX(filecap):", "ANALYSIS-ERROR"),
 ]
